@@ -112,6 +112,16 @@ def gen_file(rng, big=None):
             v.vsize = 0xFFFFFFFF
         else:
             v.vsize = None
+    # stale vsize values that LOOK plausible: 4-aligned and a little (or a lot) larger than the true size, aimed at
+    # record variables (a reader that trusted them would compute a wrong record size).  Private generator: main stream unchanged.
+    import random, zlib
+    prng = random.Random(zlib.crc32(repr([(v.name, v.begin, v.xtype) for v in s.vars]).encode()))
+    for v in s.vars:
+        if prng.random() < (0.35 if s.is_rec(v) else 0.1):
+            true = s.vsize_spec(v)
+            cand = true + 4 * prng.choice([1, 1, 2, 13]) if prng.random() < 0.7 else 2 * true + 4
+            if cand < 0xFFFFFFFF or version == 5:
+                v.vsize = cand
     data = {}
     for i, v in enumerate(s.vars):
         shp = ([s.numrecs] if s.is_rec(v) else []) + s.shape(v)
